@@ -1,0 +1,115 @@
+//go:build verif
+
+// Contracts of the decoder (see zz_verif_contracts.go for the format).  Comment-only file.
+
+package hessian
+
+// @rd: level-local trace of read events; @ropens: number of container-opening tags consumed so far.
+
+//@ func (*Decoder).addDecoderRef
+//@   assigns d.refList
+//@   ensures [C04:dec-register] len(d.refList) == len(old(d.refList)) + 1
+
+//@ func (*Decoder).readRef
+//@   assigns @pos, @E
+//@   ensures [C14:ref-total] true
+
+//@ func (*Decoder).readType
+//@   assigns @pos, @E, @declared, d.typList
+//@   ensures [C14:type-total] true
+
+//@ func (*Decoder).readClassDef
+//@   assigns @pos, @E, @declared
+//@   loop 1 invariant [C14:clsdef-index] 0 <= i
+//@   ensures [C14:classdef-total] true
+
+//@ func (*Decoder).readObject
+//@   assigns @pos, @E, @declared, @rset, d.typList, d.refList, d.clsDefList
+//@   loop 1 invariant [C14:object-index] 0 <= i
+//@   ensures [C14:object-total] true
+
+//@ func (*Decoder).readField
+//@   assigns @pos, @E, @declared, @rset, d.typList, d.refList, d.clsDefList
+//@   ensures [C14:field-total] true
+
+//@ func (*Decoder).readTagObject
+//@   assigns @pos, @E, @declared, @rset, d.typList, d.refList, d.clsDefList
+//@   ensures [C14:tagobject-total] true
+
+//@ func (*Decoder).ReadLenTagObject
+//@   assigns @pos, @E, @declared, @rset, d.typList, d.refList, d.clsDefList
+//@   ensures [C14:lentagobject-total] true
+
+//@ func (*Decoder).readObjectDef
+//@   assigns @pos, @E, @declared, @rset, d.typList, d.refList, d.clsDefList
+//@   ensures [C14:objectdef-total] true
+
+//@ func (*Decoder).readTypedList
+//@   assigns @pos, @E, @declared, @rset, d.typList, d.refList, d.clsDefList
+//@   loop 1 invariant [C14:typedlist-index] 0 <= j
+//@   ensures [C14:typedlist-total] true
+
+//@ func (*Decoder).readUntypedList
+//@   assigns @pos, @E, @declared, @rset, d.typList, d.refList, d.clsDefList
+//@   loop 1 invariant [C14:untypedlist-index] 0 <= j
+//@   ensures [C14:untypedlist-total] true
+
+//@ func (*Decoder).ReadList
+//@   requires flag == -1 || (0 <= flag && flag <= 255)
+//@   assigns @pos, @E, @declared, @rset, d.typList, d.refList, d.clsDefList
+//@   ensures [C14:list-total] true
+
+//@ func (*Decoder).readTypedMap
+//@   assigns @pos, @E, @declared, @rset, d.typList, d.refList, d.clsDefList
+//@   loop 1 invariant [C14:typedmap-loop] true
+//@   ensures [C14:typedmap-total] true
+
+//@ func (*Decoder).readUntypedMap
+//@   assigns @pos, @E, @declared, @rset, d.typList, d.refList, d.clsDefList
+//@   loop 1 invariant [C14:untypedmap-loop] true
+//@   ensures [C14:untypedmap-total] true
+
+//@ func (*Decoder).readMap
+//@   assigns @pos, @E, @declared, @rset, d.typList, d.refList, d.clsDefList
+//@   loop 1 invariant [C14:map-loop] true
+//@   ensures [C14:map-total] true
+
+//@ func (*Decoder).readStruct
+//@   assigns @pos, @E, @declared, @rset, d.typList, d.refList, d.clsDefList
+//@   ensures [C14:struct-total] true
+
+//@ func (*Decoder).ReadData
+//@   assigns @pos, @E, @declared, @rset, d.typList, d.refList, d.clsDefList
+//@   ensures [C14:data-total] true
+
+//@ func findField
+//@   pure
+//@   loop 1 invariant [C05:find-index] 0 <= i
+//@   ensures [C05:find-range] err == nil ==> 0 <= result0 && result0 < R.tNumField(typ)
+
+//@ func SetValue
+//@   assigns @rset
+//@   loop 1 invariant [C14:setvalue-walk] true
+//@   loop 2 invariant [C14:setvalue-walk] true
+//@   ensures [C14:setvalue-total] true
+
+//@ func SetSlice
+//@   assigns @rset
+//@   ensures [C14:setslice-total] true
+
+//@ func ConvertSliceValueType
+//@   assigns @rset
+//@   loop 1 invariant [C14:convert-index] 0 <= i
+//@   ensures [C14:convert-total] true
+
+//@ func EnsureRawValue
+//@   pure
+//@   ensures [C06:rawvalue-total] true
+
+//@ func EnsureInterface
+//@   pure
+//@   ensures [C06:ensure-interface-err] err != nil ==> result1 == err
+
+//@ func PackPtr
+//@   pure
+//@   ensures [C14:packptr-total] true
